@@ -203,3 +203,33 @@ def r_sib_r_c07_8(ctx):
     from .c01 import r6 as returns_frame_length
     resend_loop(ctx)
     returns_frame_length(ctx)
+
+
+@rule("R-C07-9", min_instances=2, title="no reading past an unanswered ping: when the write of the pong fails (timeout, lost connection) the failure leaves the receive call -- the loop never goes on to the next frame with the pong missing or half-written")
+def r9(ctx):
+    from ..appmodel import raise_exc
+    from ..rulekit import CLOSED_EXC, TIMEOUT_EXC
+    loc = ctx.index.loc(ctx.index.func(Q).node)
+
+    def failing_send(I, run, args, kwargs, node):
+        run.effect("send", args[1:], kwargs, node=node)
+        ch = run.choose(3, I.locof(node), "frame write: done / write timeout / connection lost")
+        if ch == 1:
+            raise_exc(I, run, TIMEOUT_EXC, node, "pong-write-failed")
+        if ch == 2:
+            raise_exc(I, run, CLOSED_EXC, node, "pong-write-failed")
+        return C(6)
+
+    for cf in (FALSE, TRUE):
+        I = Interp(ctx.index, recv_config(extra_stubs={"_core:WebSocket.send": failing_send, "_core:WebSocket.send_close": lambda I, run, a, k, n: NONE}))
+        outs = explore_recv(ctx, I, "recv_data_frame", "idle", control_frame=cf)
+        failed = [o for o in outs if any(d.text.startswith("frame write") and d.choice in (1, 2) for d in o.decisions)]
+        if not failed:
+            raise AnalysisError("no path on which the pong's write fails")
+        bad = [o for o in failed if not (o.kind == "raise" and o.exc_class in (TIMEOUT_EXC, CLOSED_EXC))]
+        if not bad:
+            ctx.ob(f"{Q}:control_frame={cf!r}:failed-pong-write-propagates", True, f"{len(failed)} paths: the write failure is raised to the caller", loc)
+        else:
+            ctx.ob(f"{Q}:control_frame={cf!r}:failed-pong-write-propagates", False,
+                   f"the pong's write fails and recv_data_frame ends as {bad[0].kind} {bad[0].exc_class or bad[0].value!r} ({len(bad)} of {len(failed)} paths): the receive call goes on "
+                   f"(or returns) although the ping was not answered; the next pong is written behind a missing or half-written one", loc, {"path": path_text(bad[0])})
